@@ -345,6 +345,32 @@ def cases(seed, tier):
         cs.append(mk_case(f'g{n}', 'pycmp' if op in ('<', '==') else 'pyop', op, txt(a), txt(b)))
         n += 1
     dist['exact_quotient_pairs'] = n - k0
+    k0 = n
+    # an EXACT quotient divided again, exactly, by an integer: Div.__floordiv__ (both the coprime branch
+    # num/(other*den) and the common-factor branch); added after the self-test mutation sweep
+    for _ in range(600 * mult):
+        fam = rng.choice(FAMILIES)
+        b = rng.choice(fam)
+        e = rng.randint(2, 24)
+        d = rng.choice([1, 2, 3, 5, 7, 9, 4, 6])
+        o = rng.choice([2, 3, 5, 7, 11, 4, 6, 9, 10, 8, 12, 16, 18, 20, 24, 25, 27, 36, 45, 50])
+        m = d * o
+        k = (-pow(b, e, m)) % m
+        if rng.random() < 0.3:
+            k += m * rng.randint(1, 5)
+        num = ('+', k, ('^', b, e)) if k else ('^', b, e)
+        if rng.random() < 0.3:
+            c = rng.choice([2, 3, 5])
+            num = ('*', c, num)
+        a = ('/', num, d) if d > 1 else num
+        try:
+            if value(a) % o != 0:
+                continue
+        except NoValue:
+            continue
+        cs.append(mk_case(f'g{n}', 'pyop', '//', txt(a), str(o)))
+        n += 1
+    dist['exact_quotient_floordiv'] = n - k0
     return cs, dist
 
 
@@ -470,6 +496,10 @@ def evaluate(cs, cf=None, want_model=True):
         if rf == 'none':
             v['status'] = 'fail'
             v['why'] = 'int(result) is undefined (an exponent inside the result is negative)'
+            continue
+        if not rf.lstrip('-').isdigit():
+            v['status'] = 'fail'
+            v['why'] = f'the result is not an expression over Add/Mul/Div/Exp with integer leaves and denominators ({rf})'
             continue
         v['status'] = 'ok' if int(rf) == exp else 'fail'
         if ev[('numeval', a)] == 'none':
